@@ -1,7 +1,7 @@
 (* Props/C04.v -- property theorems only: Theorem / exact lemma / Check (pins the statement) / Print Assumptions.
    C04: a banded matrix behaves exactly like the dense matrix with the same band. *)
-From Coq Require Import List Arith ZArith QArith Qcanon Lia.
-From OV Require Import Base.Panic Base.Arith Model.Vector Model.Matrix Model.Banded Inst.QcInst Proofs.Banded.
+From Coq Require Import List Arith ZArith QArith Qcanon Lia Floats.
+From OV Require Import Base.Panic Base.Arith Model.Vector Model.Matrix Model.Banded Inst.QcInst Inst.FloatInst Proofs.Banded Legacy.C04Refuted.
 Import ListNotations.
 Local Open Scope nat_scope.
 
@@ -154,3 +154,18 @@ Check band_div_dense : forall (A : Arith) (FL : FieldLaws A) (B : banded A) (s :
 Print Assumptions band_div_dense.
 Example band_div_dense_nonvacuous : wfB ex_B /\ @eqb AQ (q 2 1) zero = false.
 Proof. split; [repeat split|reflexivity]. Qed.
+
+(* ---- the pre-repair pivot rule (signed comparison, unconditional division) is refuted by the committed witness.
+   Exact tier here; the binary64 half ([[-2,1],[1e-20,1]] x = [-1,1]: legacy answers [0,1], repaired [1,1]) is
+   Legacy.C04Refuted.band_pivot_legacy_refuted, compiled with this file (its Print Assumptions lists the
+   primitive-float operations, which the closed-theorem audit of this file does not admit). ---- *)
+Theorem band_pivot_legacy_refuted_exact :
+  @band_solve_legacy AQ wit_q [q 0 1; q 1 1] = Panic DivZero /\
+  @band_solve AQ wit_q [q 0 1; q 1 1] = Ok [q 1 1; q 1 1] /\
+  @band_det_legacy AQ wit_q = Panic DivZero /\ @band_det AQ wit_q = Ok (q (-1) 1).
+Proof. exact (conj (proj1 Legacy.C04Refuted.band_pivot_legacy_refuted_exact) (conj (proj2 Legacy.C04Refuted.band_pivot_legacy_refuted_exact) band_det_legacy_refuted)). Qed.
+Check band_pivot_legacy_refuted_exact :
+  @band_solve_legacy AQ wit_q [q 0 1; q 1 1] = Panic DivZero /\
+  @band_solve AQ wit_q [q 0 1; q 1 1] = Ok [q 1 1; q 1 1] /\
+  @band_det_legacy AQ wit_q = Panic DivZero /\ @band_det AQ wit_q = Ok (q (-1) 1).
+Print Assumptions band_pivot_legacy_refuted_exact.
